@@ -52,8 +52,8 @@ package scheduler_util
 //@ axiom forall f ref, a ref :: swo(f) ==> !lessV(f, a, a)
 //@ axiom forall f ref, a ref, b ref, c ref :: swo(f) && lessV(f, a, b) && lessV(f, b, c) ==> lessV(f, a, c)
 //@ axiom forall f ref, a ref, b ref, c ref :: swo(f) && !lessV(f, a, b) && !lessV(f, b, c) ==> !lessV(f, a, c)
-// the heap invariants of container/heap on the item slice s: no child is handed out before its parent ...
-//@ define heapShape(s []interface{}, f ref) bool = forall p int :: 0 <= p ==> (2 * p + 1 < len(s) ==> !lessV(f, s[2 * p + 1], s[p])) && (2 * p + 2 < len(s) ==> !lessV(f, s[2 * p + 2], s[p]))
+// the heap invariants of container/heap on the item slice s: no child (slot c) is handed out before its parent (slot p) ...
+//@ define heapShape(s []interface{}, f ref) bool = forall p int, c int :: 0 <= p && p < c && c < len(s) && (c == 2 * p + 1 || c == 2 * p + 2) ==> !lessV(f, s[c], s[p])
 // ... and their consequence (induction over the depth, for a strict weak order): nothing is handed out before the root
 //@ define rootFirst(s []interface{}, f ref) bool = forall i int :: 0 <= i && i < len(s) ==> !lessV(f, s[i], s[0])
 //@ define heapOK(s []interface{}, f ref) bool = heapShape(s, f) && rootFirst(s, f)
@@ -134,6 +134,8 @@ package scheduler_util
 // routines", "Pop removes and returns the minimum element (according to Less)", "Pop is equivalent to Remove(h, 0)"):
 // for a comparator that is a strict weak order every routine keeps heapOK = the invariants + "nothing is handed out
 // before the root" (their consequence by induction over the depth, which SMT cannot do; assumed here together with the library).
+// [keptIfBefore] is "no other element is lost" in the only form needed for C16 (and the only one that does not send the
+// solvers into a matching loop with [members]): an old element that the comparator places before some element is still there.
 //@ define hq(h ref) *priorityQueue = unbox(h, "*priorityQueue")
 
 //@ func container/heap.Push
@@ -144,9 +146,9 @@ package scheduler_util
 //@   modifies hq(h).items, hq(h).items[*]
 //@   ensures [len] len(hq(h).items) == old(len(hq(h).items)) + 1
 //@   ensures [members] forall i int :: 0 <= i && i < len(hq(h).items) ==> hq(h).items[i] == x || (exists j int :: 0 <= j && j < old(len(hq(h).items)) && hq(h).items[i] == old(hq(h).items[j]))
-//@   ensures [oldKept] forall j int :: 0 <= j && j < old(len(hq(h).items)) ==> (exists i int :: 0 <= i && i < len(hq(h).items) && hq(h).items[i] == old(hq(h).items[j]))
+//@   ensures [keptIfBefore] forall v ref, w ref :: lessV(hq(h).lessFn, v, w) && (exists j int :: 0 <= j && j < old(len(hq(h).items)) && old(hq(h).items[j]) == v) ==> (exists i int :: 0 <= i && i < len(hq(h).items) && hq(h).items[i] == v)
 //@   ensures [pushedPresent] exists i int :: 0 <= i && i < len(hq(h).items) && hq(h).items[i] == x
-//@   ensures [backing] fresh(hq(h).items) || samearray(hq(h).items, old(hq(h).items))
+//@   ensures [backing] fresh(hq(h).items)   // h.Push appends: a new backing array in the engine's model of append (adapter contract (*priorityQueue).Push [freshBacking])
 //@   ensures [noNewDuplicates] forall i1 int, i2 int :: 0 <= i1 && i1 < i2 && i2 < len(hq(h).items) && hq(h).items[i1] == hq(h).items[i2] ==> (exists j1 int, j2 int :: 0 <= j1 && j1 < j2 && j2 < old(len(hq(h).items)) && old(hq(h).items[j1]) == hq(h).items[i1] && old(hq(h).items[j2]) == hq(h).items[i1]) || (hq(h).items[i1] == x && (exists j int :: 0 <= j && j < old(len(hq(h).items)) && old(hq(h).items[j]) == x))
 //@   ensures [heapKept] hq(h).lessFn != nil && swo(hq(h).lessFn) && old(heapOK(hq(h).items, hq(h).lessFn)) ==> heapOK(hq(h).items, hq(h).lessFn)
 //@ end
@@ -160,7 +162,7 @@ package scheduler_util
 //@   ensures [which] result == old(hq(h).items[0])
 //@   ensures [len] len(hq(h).items) == old(len(hq(h).items)) - 1
 //@   ensures [members] forall i int :: 0 <= i && i < len(hq(h).items) ==> (exists j int :: 0 <= j && j < old(len(hq(h).items)) && hq(h).items[i] == old(hq(h).items[j]))
-//@   ensures [othersKept] forall j int :: 0 <= j && j < old(len(hq(h).items)) && j != 0 ==> (exists i int :: 0 <= i && i < len(hq(h).items) && hq(h).items[i] == old(hq(h).items[j]))
+//@   ensures [keptIfBefore] forall v ref, w ref :: lessV(hq(h).lessFn, v, w) && (exists j int :: 0 <= j && j < old(len(hq(h).items)) && j != 0 && old(hq(h).items[j]) == v) ==> (exists i int :: 0 <= i && i < len(hq(h).items) && hq(h).items[i] == v)
 //@   ensures [backing] samearray(hq(h).items, old(hq(h).items))
 //@   ensures [removedOnce] forall i int :: 0 <= i && i < len(hq(h).items) && hq(h).items[i] == result ==> (exists j1 int, j2 int :: 0 <= j1 && j1 < j2 && j2 < old(len(hq(h).items)) && old(hq(h).items[j1]) == result && old(hq(h).items[j2]) == result)
 //@   ensures [noNewDuplicates] forall i1 int, i2 int :: 0 <= i1 && i1 < i2 && i2 < len(hq(h).items) && hq(h).items[i1] == hq(h).items[i2] ==> (exists j1 int, j2 int :: 0 <= j1 && j1 < j2 && j2 < old(len(hq(h).items)) && old(hq(h).items[j1]) == hq(h).items[i1] && old(hq(h).items[j2]) == hq(h).items[i1])
@@ -176,7 +178,7 @@ package scheduler_util
 //@   ensures [which] result == old(hq(h).items[i])
 //@   ensures [len] len(hq(h).items) == old(len(hq(h).items)) - 1
 //@   ensures [members] forall i int :: 0 <= i && i < len(hq(h).items) ==> (exists j int :: 0 <= j && j < old(len(hq(h).items)) && hq(h).items[i] == old(hq(h).items[j]))
-//@   ensures [othersKept] forall j int :: 0 <= j && j < old(len(hq(h).items)) && j != i ==> (exists i int :: 0 <= i && i < len(hq(h).items) && hq(h).items[i] == old(hq(h).items[j]))
+//@   ensures [keptIfBefore] forall v ref, w ref :: lessV(hq(h).lessFn, v, w) && (exists j int :: 0 <= j && j < old(len(hq(h).items)) && j != i && old(hq(h).items[j]) == v) ==> (exists i int :: 0 <= i && i < len(hq(h).items) && hq(h).items[i] == v)
 //@   ensures [backing] samearray(hq(h).items, old(hq(h).items))
 //@   ensures [removedOnce] forall i int :: 0 <= i && i < len(hq(h).items) && hq(h).items[i] == result ==> (exists j1 int, j2 int :: 0 <= j1 && j1 < j2 && j2 < old(len(hq(h).items)) && old(hq(h).items[j1]) == result && old(hq(h).items[j2]) == result)
 //@   ensures [noNewDuplicates] forall i1 int, i2 int :: 0 <= i1 && i1 < i2 && i2 < len(hq(h).items) && hq(h).items[i1] == hq(h).items[i2] ==> (exists j1 int, j2 int :: 0 <= j1 && j1 < j2 && j2 < old(len(hq(h).items)) && old(hq(h).items[j1]) == hq(h).items[i1] && old(hq(h).items[j2]) == hq(h).items[i1])
@@ -190,7 +192,7 @@ package scheduler_util
 //@   requires typeis(h, "*priorityQueue") && hq(h) != nil && 0 <= i && i < len(hq(h).items)
 //@   modifies hq(h).items[*]
 //@   ensures [members] forall i int :: 0 <= i && i < len(hq(h).items) ==> (exists j int :: 0 <= j && j < old(len(hq(h).items)) && hq(h).items[i] == old(hq(h).items[j]))
-//@   ensures [allKept] forall j int :: 0 <= j && j < old(len(hq(h).items)) ==> (exists i int :: 0 <= i && i < len(hq(h).items) && hq(h).items[i] == old(hq(h).items[j]))
+//@   ensures [keptIfBefore] forall v ref, w ref :: lessV(hq(h).lessFn, v, w) && (exists j int :: 0 <= j && j < old(len(hq(h).items)) && old(hq(h).items[j]) == v) ==> (exists i int :: 0 <= i && i < len(hq(h).items) && hq(h).items[i] == v)
 //@   ensures [noNewDuplicates] forall i1 int, i2 int :: 0 <= i1 && i1 < i2 && i2 < len(hq(h).items) && hq(h).items[i1] == hq(h).items[i2] ==> (exists j1 int, j2 int :: 0 <= j1 && j1 < j2 && j2 < old(len(hq(h).items)) && old(hq(h).items[j1]) == hq(h).items[i1] && old(hq(h).items[j2]) == hq(h).items[i1])
 //@   ensures [heapKept] hq(h).lessFn != nil && swo(hq(h).lessFn) && old(heapOK(hq(h).items, hq(h).lessFn)) ==> heapOK(hq(h).items, hq(h).lessFn)
 //@ end
@@ -202,7 +204,7 @@ package scheduler_util
 //@   requires typeis(h, "*priorityQueue") && hq(h) != nil
 //@   modifies hq(h).items[*]
 //@   ensures [members] forall i int :: 0 <= i && i < len(hq(h).items) ==> (exists j int :: 0 <= j && j < old(len(hq(h).items)) && hq(h).items[i] == old(hq(h).items[j]))
-//@   ensures [allKept] forall j int :: 0 <= j && j < old(len(hq(h).items)) ==> (exists i int :: 0 <= i && i < len(hq(h).items) && hq(h).items[i] == old(hq(h).items[j]))
+//@   ensures [keptIfBefore] forall v ref, w ref :: lessV(hq(h).lessFn, v, w) && (exists j int :: 0 <= j && j < old(len(hq(h).items)) && old(hq(h).items[j]) == v) ==> (exists i int :: 0 <= i && i < len(hq(h).items) && hq(h).items[i] == v)
 //@   ensures [noNewDuplicates] forall i1 int, i2 int :: 0 <= i1 && i1 < i2 && i2 < len(hq(h).items) && hq(h).items[i1] == hq(h).items[i2] ==> (exists j1 int, j2 int :: 0 <= j1 && j1 < j2 && j2 < old(len(hq(h).items)) && old(hq(h).items[j1]) == hq(h).items[i1] && old(hq(h).items[j2]) == hq(h).items[i1])
 //@   ensures [heapEstablished] hq(h).lessFn != nil && swo(hq(h).lessFn) ==> heapOK(hq(h).items, hq(h).lessFn)
 //@ end
@@ -241,7 +243,7 @@ package scheduler_util
 //@ end
 
 // Push: length, membership and multiplicity as before (clients: podgroup_info, resource_division, actions/utils), plus:
-// [oldKeptUnbounded] nothing is lost without a bound; [orderKept] the heap invariants survive; [keepsBest] (/repo 16edb70,
+// [pushedPresentNoOverflow]; [orderKept] the heap invariants survive; [keepsBestOld] / [keepsBestNew] (/repo 16edb70,
 // "a bounded PriorityQueue gives up the item it would pop last"): an element of old items + `it` that is no longer in the
 // queue is handed out before none of the elements that stayed.
 //@ func (*PriorityQueue).Push
@@ -254,14 +256,13 @@ package scheduler_util
 //@   ensures [pushedPresentUnbounded] q.maxQueueSize == QueueCapacityInfinite ==> pqHas(q, it, len(q.queue.items))
 //@   ensures [backing] fresh(q.queue.items) || samearray(q.queue.items, old(q.queue.items))
 //@   ensures [noNewDuplicates] forall i1 int, i2 int :: 0 <= i1 && i1 < i2 && i2 < len(q.queue.items) && q.queue.items[i1] == q.queue.items[i2] ==> (exists j1 int, j2 int :: 0 <= j1 && j1 < j2 && j2 < old(len(q.queue.items)) && old(q.queue.items[j1]) == q.queue.items[i1] && old(q.queue.items[j2]) == q.queue.items[i1]) || (q.queue.items[i1] == it && (exists j int :: 0 <= j && j < old(len(q.queue.items)) && old(q.queue.items[j]) == it))
-//@   ensures [oldKeptNoOverflow] q.maxQueueSize == QueueCapacityInfinite || old(len(q.queue.items)) + 1 <= q.maxQueueSize ==> (forall j int :: 0 <= j && j < old(len(q.queue.items)) ==> (exists i int :: 0 <= i && i < len(q.queue.items) && q.queue.items[i] == old(q.queue.items[j])))
 //@   ensures [pushedPresentNoOverflow] q.maxQueueSize == QueueCapacityInfinite || old(len(q.queue.items)) + 1 <= q.maxQueueSize ==> pqHas(q, it, len(q.queue.items))
 //@   ensures [orderKept] old(pqOrdered(q)) ==> pqOrdered(q)
 //@   ensures [keepsBestOld] q.queue.lessFn != nil && swo(q.queue.lessFn) ==> (forall j int, i int :: 0 <= j && j < old(len(q.queue.items)) && 0 <= i && i < len(q.queue.items) && !pqHas(q, old(q.queue.items[j]), len(q.queue.items)) ==> !lessV(q.queue.lessFn, old(q.queue.items[j]), q.queue.items[i]))
 //@   ensures [keepsBestNew] q.queue.lessFn != nil && swo(q.queue.lessFn) ==> (forall i int :: 0 <= i && i < len(q.queue.items) && !pqHas(q, it, len(q.queue.items)) ==> !lessV(q.queue.lessFn, it, q.queue.items[i]))
 //@ end
 
-// Pop: as before, plus [first] it is the element Peek shows, [othersKept] nothing else is lost, [orderKept], and C16
+// Pop: as before, plus [first] it is the element Peek shows, [orderKept], and C16
 // [handsOutBest]: no element of the queue is handed out before the one returned.
 //@ func (*PriorityQueue).Pop
 //@   props C03 C16 C05 C09
@@ -275,7 +276,6 @@ package scheduler_util
 //@   ensures [removedOnce] forall i int :: 0 <= i && i < len(q.queue.items) && q.queue.items[i] == result ==> (exists j1 int, j2 int :: 0 <= j1 && j1 < j2 && j2 < old(len(q.queue.items)) && old(q.queue.items[j1]) == result && old(q.queue.items[j2]) == result)
 //@   ensures [noNewDuplicates] forall i1 int, i2 int :: 0 <= i1 && i1 < i2 && i2 < len(q.queue.items) && q.queue.items[i1] == q.queue.items[i2] ==> (exists j1 int, j2 int :: 0 <= j1 && j1 < j2 && j2 < old(len(q.queue.items)) && old(q.queue.items[j1]) == q.queue.items[i1] && old(q.queue.items[j2]) == q.queue.items[i1])
 //@   ensures [first] old(len(q.queue.items)) > 0 ==> result == old(q.queue.items[0])
-//@   ensures [othersKept] forall j int :: 0 <= j && j < old(len(q.queue.items)) && j != 0 ==> (exists i int :: 0 <= i && i < len(q.queue.items) && q.queue.items[i] == old(q.queue.items[j]))
 //@   ensures [orderKept] old(pqOrdered(q)) ==> pqOrdered(q)
 //@   ensures [handsOutBest] old(pqOrdered(q)) ==> (forall j int :: 0 <= j && j < old(len(q.queue.items)) ==> !lessV(q.queue.lessFn, old(q.queue.items[j]), result))
 //@ end
@@ -286,7 +286,5 @@ package scheduler_util
 //@   requires q != nil && 0 <= index && index < len(q.queue.items)
 //@   modifies q.queue.items[*]
 //@   ensures [members] forall i int :: 0 <= i && i < len(q.queue.items) ==> (exists j int :: 0 <= j && j < old(len(q.queue.items)) && q.queue.items[i] == old(q.queue.items[j]))
-//@   ensures [allKept] forall j int :: 0 <= j && j < old(len(q.queue.items)) ==> (exists i int :: 0 <= i && i < len(q.queue.items) && q.queue.items[i] == old(q.queue.items[j]))
-//@   ensures [noNewDuplicates] forall i1 int, i2 int :: 0 <= i1 && i1 < i2 && i2 < len(q.queue.items) && q.queue.items[i1] == q.queue.items[i2] ==> (exists j1 int, j2 int :: 0 <= j1 && j1 < j2 && j2 < old(len(q.queue.items)) && old(q.queue.items[j1]) == q.queue.items[i1] && old(q.queue.items[j2]) == q.queue.items[i1])
 //@   ensures [orderKept] old(pqOrdered(q)) ==> pqOrdered(q)
 //@ end
